@@ -136,9 +136,10 @@ def install(reg: Registry):
     # ---- LanguageGraph.get_asset_by_name (C15, C01)
     def gabn_inv(c: LCtx):
         a = A('a!gi2')
-        return [('not-yet', FA([a], z3.Implies(z3.Select(c.done, VRef(a)) > 0, c.old.f('name', a) != c.asset_name), [z3.Select(c.done, VRef(a))]))]
+        return [('not-yet', FA([a], z3.Implies(z3.Select(c.done, VRef(a)) > 0, HSc(c).f('name', a) != c.asset_name), [z3.Select(c.done, VRef(a))]))]
     reg.add(Contract(ML + ':LanguageGraph.get_asset_by_name', {'self': Obj(LG), 'asset_name': T.str}, returns=Obj(LGA, opt=True), pure=True,
-                     requires=lambda c: [('AssetByName.def', asset_by_name_def(c.old, c.self))],
+                     requires=lambda c: [('AssetByName.def', asset_by_name_def(HSc(c), c.self)), ('HS.agree', agree(HSc(c), c.old)),
+                                         ('HS.objects', z3.And(c.self >= 0, c.self < HSc(c).alloc)), ('HS.closed', z3.And(*heap_closed(HSc(c))))],
                      ensures=lambda c: [('def', c.res == AssetByName(c.asset_name))], loops={0: LoopSpec(gabn_inv)}, props=('C15', 'C01')))
 
     # ---- LanguageGraph._get_variable_for_asset_type_by_name : the definition of VarE is its contract (verified below)
@@ -176,13 +177,10 @@ def install(reg: Registry):
         ]
 
     def old_unchanged(o, h):
+        """every array agrees with the pre-state on every object allocated in the pre-state (one trigger per array)"""
         l = A('l!ou')
-        dict_frame = [FA([l], z3.Implies(z3.And(l >= 0, l < o.alloc), z3.Select(h.arr[n], l) == z3.Select(o.arr[n], l)), [z3.Select(h.arr[n], l)])
-                      for n in DICT_ARRAYS if not z3.eq(h.arr[n], o.arr[n])]
-        return z3.And(*dict_frame, FA([l], z3.Implies(z3.And(l >= 0, l < o.alloc), h.bagof(l) == o.bagof(l)), [h.bagof(l)]),
-                      FA([l], z3.Implies(z3.And(l >= 0, l < o.alloc), h.len(l) == o.len(l)), [h.len(l)]),
-                      FA([l], z3.Implies(z3.And(l >= 0, l < o.alloc), z3.Select(h.arr['L_at'], l) == z3.Select(o.arr['L_at'], l)), [z3.Select(h.arr['L_at'], l)]),
-                      FA([l], z3.Implies(z3.And(l >= 0, l < o.alloc), z3.And(h.cls(l) == o.cls(l), h.own_obj(l) == o.own_obj(l))), [h.cls(l)]))
+        return z3.And(*[FA([l], z3.Implies(z3.And(l >= 0, l < o.alloc), z3.Select(h.arr[n], l) == z3.Select(o.arr[n], l)), [z3.Select(h.arr[n], l)])
+                        for n in h.arr if not z3.eq(h.arr[n], o.arr[n])], z3.BoolVal(True))
 
     def ensures(c):
         o, h = c.old, c.h
@@ -218,6 +216,7 @@ def install(reg: Registry):
             inl = lambda L, q: h.cnt(L, q) > 0
             dn = lambda q: z3.Select(c.done, VRef(q)) > 0
             base = [
+                ('HS.agree', agree(HSc(c), h)),
                 ('nothing-old-is-written', old_unchanged(o, h)),
                 ('acc-elems', FA([v], z3.Implies(h.bag(acc, v) > 0, z3.And(is_VRef(v), HSc(c).cnt(HSc(c).f('assets', c.model), v_a(v)) > 0)), [h.bag(acc, v)])),
                 ('operands-kept', z3.And(list_same(c.hl, h, rh), z3.BoolVal(True) if kind == 'union' else list_same(c.hl, h, lh))),
@@ -241,7 +240,8 @@ def install(reg: Registry):
     # loop ordinals in source order: 0 union, 1 intersection, 2 difference, 3 variable, 4 field, 5 while (transitive),
     # 6, 7 nested for (transitive), 8 subType collect, 9 subType filter
     def variable_inv(c: LCtx):
-        return [('first-iteration-returns', c.i == 0)]
+        return [('first-iteration-returns', c.i == 0), ('nothing-old-is-written', old_unchanged(c.old, c.h)),
+                ('HS.agree', agree(HSc(c), c.h))]
 
     def field_inv(c: LCtx):
         o, h = c.old, c.h
@@ -249,6 +249,7 @@ def install(reg: Registry):
         y, x = A('y!fi'), A('x!fi')
         v = z3.Const('v!fi', Val)
         return [
+            ('HS.agree', agree(HSc(c), h)),
             ('nothing-old-is-written', old_unchanged(o, h)),
             ('acc-fresh', z3.And(acc >= o.alloc, acc < h.alloc, h.cls(acc) == CLS_LIST)),
             ('acc-elems', FA([v], z3.Implies(h.bag(acc, v) > 0, z3.And(is_VRef(v), HSc(c).cnt(HSc(c).f('assets', c.model), v_a(v)) > 0)), [h.bag(acc, v)])),
@@ -263,6 +264,7 @@ def install(reg: Registry):
         v = z3.Const('v!sc', Val)
         s = sub_e(HSc(c), c.step_expression, 'stepExpression')
         return [
+            ('HS.agree', agree(HSc(c), h)),
             ('nothing-old-is-written', old_unchanged(o, h)),
             ('acc-fresh', z3.And(acc >= o.alloc, acc < h.alloc, h.cls(acc) == CLS_LIST)),
             ('acc-elems', FA([v], z3.Implies(h.bag(acc, v) > 0, z3.And(is_VRef(v), HSc(c).cnt(HSc(c).f('assets', c.model), v_a(v)) > 0)), [h.bag(acc, v)])),
@@ -278,6 +280,7 @@ def install(reg: Registry):
         e = c.step_expression
         ok = lambda q: ANC(v_a(AssetByName(HSc(c).f('type', q))), v_a(AssetByName(v_s(HSc(c).val(e, K('subType'))))))
         return [
+            ('HS.agree', agree(HSc(c), h)),
             ('nothing-old-is-written', old_unchanged(o, h)),
             ('sel-fresh', z3.And(sel >= o.alloc, sel < h.alloc, h.cls(sel) == CLS_LIST, sel != src)),
             ('src-kept', list_same(c.hl, h, src)),
